@@ -20,16 +20,16 @@ import (
 )
 
 type Render struct {
-	V       bool           `json:"v"`
-	P       bool           `json:"p"`
-	Named   map[string]int `json:"named"` // nil: no WithNamedArgs call
-	Panic   string         `json:"panic,omitempty"`
-	SQL     string         `json:"sql"` // hex
-	Args    []int          `json:"args"`
-	Err     *string        `json:"err"` // hex of err.Error(), null if nil
-	ErrIs   []string       `json:"err_is,omitempty"`
-	Missing bool           `json:"missing,omitempty"`
-	Unstable string        `json:"unstable,omitempty"` // set when repeated renderings differ
+	V        bool           `json:"v"`
+	P        bool           `json:"p"`
+	Named    map[string]int `json:"named"` // nil: no WithNamedArgs call
+	Panic    string         `json:"panic,omitempty"`
+	SQL      string         `json:"sql"` // hex
+	Args     []int          `json:"args"`
+	Err      *string        `json:"err"` // hex of err.Error(), null if nil
+	ErrIs    []string       `json:"err_is,omitempty"`
+	Missing  bool           `json:"missing,omitempty"`
+	Unstable string         `json:"unstable,omitempty"` // set when repeated renderings differ
 }
 
 type Case struct {
@@ -331,6 +331,14 @@ func main() {
 			c.Renders = append(c.Renders, render(sw, true, false, miss))
 			c.Renders = append(c.Renders, render(sw, true, false, nil))
 			extra := map[string]int{"zz-unused": 3}
+			// unused names that differ from a used one by a sigil, case or blanks, carrying other values
+			for k := range full {
+				for _, nk := range []string{"@" + k, ":" + k, "$" + k, " " + k, k + " ", strings.ToUpper(k), strings.ToLower(k), strings.TrimPrefix(k, "@"), strings.TrimSpace(k)} {
+					if _, used := full[nk]; !used {
+						extra[nk] = anyID(pool[g.Rng.Intn(len(pool))])
+					}
+				}
+			}
 			for k, v := range full {
 				extra[k] = v
 			}
